@@ -171,7 +171,7 @@ Lemma correct_str a x : correct (EStr a x).
 Proof. intros ctx scs _. cbn. one_step. reflexivity. Qed.
 
 Lemma correct_const a v : correct (EConst a v).
-Proof. intros ctx scs _. cbn. one_step. reflexivity. Qed.
+Proof. intros ctx scs _. cbn. destruct v; one_step; reflexivity. Qed.
 
 Lemma correct_ident a name ns : correct (EIdent a name ns).
 Proof.
